@@ -290,11 +290,16 @@ def _is_notes_key_fact(ctx: Ctx, fi: FunctionInfo, fs, kvar: ast.expr) -> bool:
     return False
 
 
-def serializer_raw_text(ctx: Ctx) -> None:
+FORMAT_WRITERS = {"sm": (BASE_SERIALIZE, CHARTS_SERIALIZE, SMCHART_SERIALIZE), "ssc": (BASE_SERIALIZE, CHARTS_SERIALIZE, SSCCHART_SERIALIZE),
+                  "both": (BASE_SERIALIZE, CHARTS_SERIALIZE, SMCHART_SERIALIZE, SSCCHART_SERIALIZE)}
+FORMAT_READERS = {"sm": ("sm_simfile", "sm_chart"), "ssc": ("ssc_simfile", "ssc_chart"), "both": ("sm_simfile", "sm_chart", "ssc_simfile", "ssc_chart")}
+
+
+def serializer_raw_text(ctx: Ctx, fmt: str = "both") -> None:
     """R-WS: every write in a serializer is an MSD parameter plus whitespace - nothing a strict parser calls stray text."""
     p = ctx.p
     n = 0
-    for fq in (BASE_SERIALIZE, CHARTS_SERIALIZE, SMCHART_SERIALIZE, SSCCHART_SERIALIZE):
+    for fq in FORMAT_WRITERS[fmt]:
         fi = p.func(fq)
         fparam = fi.param_names()[1] if len(fi.param_names()) > 1 else None
         require(fparam is not None, f"{fq} has no file parameter")
@@ -323,7 +328,7 @@ def serializer_raw_text(ctx: Ctx) -> None:
                 (isinstance(x, ast.Name) and x.id in pnames) or (isinstance(x, ast.Call) and x in pcalls) for x in others)
             ctx.expect("R-WS", fi, f"write({src(w.args[0], 40)}) is parameters + whitespace", good, repr(lit),
                        f"writes {src(w.args[0])}: text outside an MSD parameter (stray text for the strict parser) or unescaped data", node=w)
-    ctx.floor("serializer writes", n, 6)
+    ctx.floor("serializer writes", n, 4 if fmt == "sm" else 6)
 
 
 def layout(ctx: Ctx) -> None:
@@ -573,11 +578,13 @@ def _param_vars(ctx: Ctx, fi: FunctionInfo) -> List[str]:
     return sorted(out)
 
 
-def reader_keynorm(ctx: Ctx) -> None:
+def reader_keynorm(ctx: Ctx, fmt: str = "both") -> None:
     """R-KEYNORM: a raw param.key never escapes - every read is the receiver of .upper()."""
     p = ctx.p
     total = 0
     for label, fq in PARSERS.items():
+        if label not in FORMAT_READERS[fmt]:
+            continue
         fi = p.func(fq)
         pv = _param_vars(ctx, fi)
         require(pv, f"{fq}: no MSDParameter variable recognised")
@@ -590,7 +597,7 @@ def reader_keynorm(ctx: Ctx) -> None:
                            "", f"raw {src(node)} is used without .upper(): lower-case keys are stored/tested as written", node=node)
         ctx.floor(f"{fi.qualname} key reads", n, 1)
         total += n
-    ctx.floor("key reads in the four readers", total, 4)
+    ctx.floor("key reads in the readers", total, 4 if fmt == "both" else 2)
 
 
 def _is_components_tail(e: ast.expr, pv: Sequence[str]) -> bool:
@@ -599,11 +606,13 @@ def _is_components_tail(e: ast.expr, pv: Sequence[str]) -> bool:
             and isinstance(e.slice.lower, ast.Constant) and e.slice.lower.value == 1 and e.slice.upper is None and e.slice.step is None)
 
 
-def reader_multi(ctx: Ctx) -> None:
+def reader_multi(ctx: Ctx, fmt: str = "both") -> None:
     """C01.3/C02.3/C03.2: all components joined with ':' exactly under key in MULTI, first component otherwise."""
     p = ctx.p
     multi = multi_table(ctx)
     for label in ("sm_simfile", "ssc_simfile", "ssc_chart"):
+        if label not in FORMAT_READERS[fmt]:
+            continue
         fi = p.func(PARSERS[label])
         pv = _param_vars(ctx, fi)
         require(pv, f"{fi.fq}: no MSDParameter variable recognised")
@@ -873,7 +882,7 @@ def _is_len_cmp(ctx: Ctx, fi: FunctionInfo, atom: ast.expr, var: str, n: int, ki
     return (isinstance(o, ast.Gt) and c == n) or (isinstance(o, ast.GtE) and c == n + 1)
 
 
-def ssc_chart_opening(ctx: Ctx) -> None:
+def ssc_chart_opening(ctx: Ctx, relaxed: bool = False) -> None:
     """C02.4: NOTEDATA closes the open chart and opens a new one; later keys go to the open chart; the last chart is appended."""
     p = ctx.p
     fi = p.func(PARSERS["ssc_simfile"])
@@ -894,6 +903,8 @@ def ssc_chart_opening(ctx: Ctx) -> None:
     binds = locals_of(fi).b[pc]
     init_none = [b for b in binds if b.kind == "assign" and isinstance(b.value, ast.Constant) and b.value.value is None
                  and cfg.dominates(cfg_node_of(cfg, fi, b.node), lnode) and not in_body(lp, b.node)]
+    if relaxed:
+        binds = [b for b in binds if not (b.kind == "assign" and isinstance(b.value, ast.Constant) and b.value.value is None and in_body(lp, b.node))]
     ctx.expect("R-ORDER", fi, "no chart is open before the first NOTEDATA", len(init_none) == 1, "", f"{pc} is not initialised to None before the loop", node=lp)
     news = [b for b in binds if b.kind == "assign" and isinstance(b.value, ast.Call)]
     for b in news:
@@ -907,8 +918,19 @@ def ssc_chart_opening(ctx: Ctx) -> None:
                and isinstance(c.func.value, ast.Attribute) and self_attr(c.func.value, sn) == "charts"]
     inl = [c for c in appends if in_body(lp, c)]
     out = [c for c in appends if not in_body(lp, c)]
-    for c in inl:
+    d_notes = p.descriptors(p.cls("simfile.ssc.SSCChart"))["notes"]
+    notes_keys = {d_notes.key, d_notes.alias} - {None}
+    for c in list(inl):
         fs = facts(ctx, fi, c)
+        if relaxed:
+            # serialized charts end with their note data: closing the chart right after its notes item is equivalent on that text
+            keys_ = _key_exprs(fi, pv)
+            at_notes = any(pol and isinstance(a, ast.Compare) and isinstance(a.ops[0], ast.In) and norm(a.left) in keys_ and try_ev(ctx, fi, a.comparators[0]) is not None
+                           and set(try_ev(ctx, fi, a.comparators[0])) == notes_keys for a, pol in fs)
+            if at_notes and fact_is_none(fs, pcv) is False:
+                ctx.observe("R-TABLE", fi, "the chart is also closed right after its notes item", unparse_facts(fs), node=c)
+                inl.remove(c)
+                continue
         ctx.expect("R-TABLE", fi, "the open chart is closed when the next NOTEDATA arrives",
                    _fact_key_eq(ctx, fi, fs, pv, "NOTEDATA") is True and fact_is_none(fs, pcv) is False, unparse_facts(fs),
                    f"in-loop append happens under {unparse_facts(fs)}", node=c)
@@ -995,13 +1017,14 @@ def ssc_chart_reader(ctx: Ctx) -> None:
 # R-NULL sweep over every serializer (thorough / C04)
 
 
-def null_sweep(ctx: Ctx) -> None:
+def null_sweep(ctx: Ctx, fmt: str = "both") -> None:
     """No Optional[str] (values of the mapping: param.value may be None) reaches a string sink unguarded in any serialize()."""
     p = ctx.p
     require(value_is_optional(), "msdparser no longer annotates MSDParameter.value as Optional")
     n = 0
+    skip = {"sm": ("simfile.ssc",), "ssc": ("simfile.sm",), "both": ()}[fmt]
     for ci in p.subclasses("simfile._private.serializable.Serializable"):
-        if ci.module.is_test:
+        if ci.module.is_test or ci.module.name in skip:
             continue
         fi = ci.methods.get("serialize")
         if fi is None:
@@ -1040,7 +1063,7 @@ def null_sweep(ctx: Ctx) -> None:
                         and par.elts and par.elts[0] is not node:
                     n += 1
                     ctx.bad("R-NULL", fi, f"{src(node)} as MSDParameter component", "a mapping lookup (None for a key-only parameter) reaches MSDParameter unguarded", node=node)
-    ctx.floor("nullable string sinks in serializers", n, 3)
+    ctx.floor("nullable string sinks in serializers", n, 2 if fmt == "sm" else 3)
 
 
 def _truthy(fs, var: ast.expr) -> bool:
